@@ -591,7 +591,19 @@ pub fn block_corruptions(rng: &mut Rng, good: &[u8], version: u8) -> Vec<(&'stat
     v
 }
 
+/// version-2 files whose footer needs the version-3 extensions (signed or > 24 h rule times): malformed by
+/// construction, whatever else the file contains (the same footers in a version-3 file are the C09 family)
+pub fn v2_extended_footers(out: &mut impl Write) {
+    for tz in [
+        &b"AAA3BBB,M3.2.0/-1,M11.1.0/2"[..], b"AAA3BBB,M3.2.0/2,M11.1.0/25", b"AAA3BBB,M3.2.0/+2,M11.1.0/2", b"AAA-1BBB,J60/167,J300/-167",
+        b"<+01>-1<+02>,0/0,J365/25", b"AAA3BBB,M3.2.0/-0,M11.1.0",
+    ] {
+        tzif_line(out, "tzifbad", "v2-extended-footer", &minimal_file(b'2', tz));
+    }
+}
+
 pub fn tzif_generated(out: &mut impl Write, rng: &mut Rng, thorough: bool) {
+    v2_extended_footers(out);
     let n = if thorough { 12_000 } else { 1_500 };
     for i in 0..n {
         let opts = ZoneOpts { wild_offsets: true, leaps: true, deletions: true, max_transitions: if i % 4 == 0 { 50 } else { 10 }, extreme_times: i % 3 == 0 };
